@@ -110,7 +110,16 @@ pub fn scenarios(thorough: bool) -> Vec<Scenario> {
                 if !thorough && cm != ClockMode::Fixed && fresh != inb {
                     continue;
                 }
-                add(2, 1, fresh, inb, cm, 1, if thorough { 3 } else { 2 });
+                // quick: the clock-step variants on a fresh inbound resource (the longest
+                // executions) at bound 1, everything else at bound 2
+                let bound = if thorough {
+                    3
+                } else if cm != ClockMode::Fixed && fresh {
+                    1
+                } else {
+                    2
+                };
+                add(2, 1, fresh, inb, cm, 1, bound);
             }
         }
     }
